@@ -100,12 +100,13 @@ def run_deductive(P, tier, R):
     R.functions = list(per_func.values())
     R.assumptions |= ex.assumptions
     axioms = sym.base_axioms() + list(getattr(ex, "extra_axioms", []))
+    lite = sym.base_axioms(heavy=False) + list(getattr(ex, "extra_axioms", []))
     t0 = time.time()
-    res = solve.discharge(ex.obls, axioms, z3_ms=z3_ms, cvc5_s=cvc5_s)
+    res = solve.discharge(ex.obls, axioms, z3_ms=z3_ms, cvc5_s=cvc5_s, axioms_lite=lite)
     # second chance for anything left open: 6x budget (keeps solver noise from becoming an alarm)
     retry = [i for i, r in enumerate(res) if r["verdict"] != "unsat"]
     if retry and len(retry) <= 40:
-        res2 = solve.discharge([ex.obls[i] for i in retry], axioms, z3_ms=z3_ms * 6, cvc5_s=cvc5_s * 4)
+        res2 = solve.discharge([ex.obls[i] for i in retry], axioms, z3_ms=z3_ms * 6, cvc5_s=cvc5_s * 4, axioms_lite=lite)
         for i, r in zip(retry, res2):
             if r["verdict"] == "unsat":
                 res[i] = r
@@ -137,6 +138,20 @@ def concretise(P, R, tier, seed):
         fshort = n.split("#")[0]
         by_contract[fshort].append(n)
     for fshort, names in by_contract.items():
+        if fshort.startswith("lemma:"):
+            L = contract.LEMMAS.get(fshort[len("lemma:"):])
+            if L is None or L.concrete is None:
+                continue
+            try:
+                found = L.concrete(tier, seed)
+            except Exception:
+                R.errors.append("concretiser crash on %s: %s" % (fshort, traceback.format_exc()[-1200:]))
+                continue
+            for name in names:
+                w = found.get(name) or (list(found.values())[0] if found else None)
+                if w is not None:
+                    out[name] = w
+            continue
         q = "ecdsa." + fshort
         c = contract.REGISTRY.get(q)
         if c is None or getattr(c, "domain", None) is None:
@@ -152,6 +167,14 @@ def concretise(P, R, tier, seed):
     return out
 
 
+class LemmaWitness(object):
+    """a concrete failing instance of a lemma: the real function `qual` called with positional args `pos`"""
+
+    def __init__(self, qual, pos):
+        self.qual = qual
+        self.pos = pos
+
+
 def run_bounded(P, R, tier, seed):
     """bounded stand-ins and the CPython cross-check of proved contracts"""
     total = 0
@@ -164,7 +187,7 @@ def run_bounded(P, R, tier, seed):
             if "run" in spec:
                 n, found, samples = spec["run"](tier, seed)
             else:
-                n, found, samples = bounded.sweep(c, c.domain(tier, seed), budget_s=spec.get("budget_s", {"quick": 20, "thorough": 300})[tier])
+                n, found, samples = bounded.sweep(c, c.domain(tier, seed), budget_s=spec.get("budget_s", {"quick": 2.5, "thorough": 300})[tier])
         except Exception:
             R.errors.append("bounded run crash on %s: %s" % (label, traceback.format_exc()[-1500:]))
             continue
@@ -222,7 +245,7 @@ def write_replay(prop, name, c, args, observed, solver_note, tier):
         rec.update(function=c.qual, file=os.path.relpath(mod.path, "/repo"), lines=[node.lineno, node.end_lineno],
                    source_sha256=mod.func_hash(q))
     if args is not None:
-        pos = bounded.positional(c, args)
+        pos = c.pos if isinstance(c, LemmaWitness) else bounded.positional(c, args)
         rec["args"] = {k: bounded.show(v) for k, v in args.items()}
         rec["args_code"] = bounded.to_code(tuple(pos))
         rec["observed_in_checker"] = observed
